@@ -9,16 +9,17 @@ import (
 // transaction.
 
 type c18Txn struct {
-	Rcpts    []string // RCPT commands of the transaction
-	Accepted []string
-	Codes    []int    // expected status per accepted recipient
-	Details  []string // expected callback argument per accepted recipient, with enhanced code and message
-	UseCb    bool
-	DataOp   int
-	NoopOp   int
-	AllOK    bool
-	Slow     bool // a per-recipient status arrives later than CommandTimeout after the previous reply, or the message is produced that slowly
-	SlowBody bool
+	Rcpts     []string // RCPT commands of the transaction
+	Accepted  []string
+	Codes     []int    // expected status per accepted recipient
+	Details   []string // expected callback argument per accepted recipient, with enhanced code and message
+	UseCb     bool
+	DataOp    int
+	NoopOp    int
+	AllOK     bool
+	Slow      bool // a per-recipient status arrives later than CommandTimeout after the previous reply, or the message is produced that slowly
+	SlowBody  bool
+	MultiLine bool // a per-recipient reply has two lines
 }
 
 type c18X struct {
@@ -187,13 +188,17 @@ func genC18(t *Tape, tier string) *Scenario {
 			tx.Accepted = append(tx.Accepted, r)
 			cl.Ops = append(cl.Ops, ClientOp{Kind: opRcpt, Arg: r})
 			code := 250
+			multi := ""
+			if t.Chance(1, 4) {
+				multi = "\nsecond line of the reply" // the server answers with a multi-line reply
+			}
 			switch t.Pick(3, 1, 1) {
 			case 1:
 				code = 550
-				dp.Statuses = append(dp.Statuses, StatusCall{Addr: r, V: Verdict{Kind: vSMTP, Code: 550, Enh: [3]int{5, 1, 1}, Msg: "no mailbox " + r}, When: t.Intn(3)})
+				dp.Statuses = append(dp.Statuses, StatusCall{Addr: r, V: Verdict{Kind: vSMTP, Code: 550, Enh: [3]int{5, 1, 1}, Msg: "no mailbox " + r + multi}, When: t.Intn(3)})
 			case 2:
 				code = 452
-				dp.Statuses = append(dp.Statuses, StatusCall{Addr: r, V: Verdict{Kind: vSMTP, Code: 452, Enh: [3]int{4, 2, 2}, Msg: "over quota " + r}, When: t.Intn(3)})
+				dp.Statuses = append(dp.Statuses, StatusCall{Addr: r, V: Verdict{Kind: vSMTP, Code: 452, Enh: [3]int{4, 2, 2}, Msg: "over quota " + r + multi}, When: t.Intn(3)})
 			default:
 				if t.Bool() {
 					dp.Statuses = append(dp.Statuses, StatusCall{Addr: r, V: Verdict{}, When: t.Intn(3)})
@@ -203,10 +208,13 @@ func genC18(t *Tape, tier string) *Scenario {
 				tx.AllOK = false
 			}
 			tx.Codes = append(tx.Codes, code)
-			switch code {
-			case 550:
+			switch {
+			case code != 250 && multi != "":
+				tx.Details = append(tx.Details, "") // a multi-line reply: only its code is compared
+				tx.MultiLine = true
+			case code == 550:
 				tx.Details = append(tx.Details, fmt.Sprintf("%s=550 5.1.1 %q", r, "<"+r+"> no mailbox "+r))
-			case 452:
+			case code == 452:
 				tx.Details = append(tx.Details, fmt.Sprintf("%s=452 4.2.2 %q", r, "<"+r+"> over quota "+r))
 			default:
 				tx.Details = append(tx.Details, r+"=ok")
@@ -363,8 +371,13 @@ func checkC18(sc *Scenario, h *History) []Violation {
 			}
 			if fmt.Sprint(d.Statuses) != fmt.Sprint(want) {
 				v("C18.statuses", "transaction %d: the callback reported %v, expected %v", ti, d.Statuses, want)
-			} else if fmt.Sprint(d.StatusDetail) != fmt.Sprint(tx.Details) {
-				v("C18.status-detail", "transaction %d: the callback was handed %v, the server said %v", ti, d.StatusDetail, tx.Details)
+			} else {
+				for i, want := range tx.Details {
+					if want != "" && i < len(d.StatusDetail) && d.StatusDetail[i] != want {
+						v("C18.status-detail", "transaction %d: the callback was handed %v, the server said %v", ti, d.StatusDetail, tx.Details)
+						break
+					}
+				}
 			}
 			if d.Err != "" && (d.End-d.Begin <= int64(time.Minute) || tx.Slow) {
 				v("C18.close-error", "transaction %d: Close with a callback returned %q", ti, d.Err)
@@ -426,6 +439,9 @@ func classifyC18(sc *Scenario, h *History, st *Stats) string {
 		if tx.SlowBody {
 			st.Faults["message_produced_slower_than_CommandTimeout"]++
 		}
+		if tx.MultiLine {
+			st.Probes["multi_line_per_recipient_reply"]++
+		}
 		key = append(key, fmt.Sprintf("%d/%v/%v", len(tx.Rcpts), tx.Codes, tx.UseCb))
 	}
 	return fmt.Sprint(key)
@@ -456,7 +472,7 @@ func init() {
 		Real:        []string{"smtp.Client (NewClientLMTP, Mail, Rcpt, LMTPData, Data, dataCloser.Close, Noop, Quit)", "smtp.Server in LMTP mode, handleDataLMTP, statusCollector", "net/textproto"},
 		Stub:        []string{"net.Listener (SimListener)", "net.Conn (SimConn)", "Backend/LMTPSession (SimBackend)", "in a fifth of the seeded runs the peer is a scripted LMTP server instead of smtp.Server (it can refuse DATA after accepting recipients, which the real server never does)", "clock (synctest): a Close that waits for replies that never come costs 12 fake minutes and is detected as such"},
 		Assumptions: []string{"'Close returns once exactly those replies have been read' is judged as: within one fake minute, and the following NOOP gets its own reply"},
-		Required:    []string{"second_or_later_transaction", "recipient_refused_after_DATA", "recipient_refused_at_RCPT", "per_recipient_reply_later_than_CommandTimeout", "message_produced_slower_than_CommandTimeout", "conversation_broken_off_by_Server.Close", "conversation_broken_off_by_backend_panic", "conversation_broken_off_by_failing_reply_write", "conversation_broken_off_by_blocked_reply_write", "DATA_refused_after_recipients_were_accepted", "next_Mail_without_Reset_after_refused_DATA"},
+		Required:    []string{"second_or_later_transaction", "recipient_refused_after_DATA", "recipient_refused_at_RCPT", "per_recipient_reply_later_than_CommandTimeout", "message_produced_slower_than_CommandTimeout", "conversation_broken_off_by_Server.Close", "conversation_broken_off_by_backend_panic", "conversation_broken_off_by_failing_reply_write", "conversation_broken_off_by_blocked_reply_write", "multi_line_per_recipient_reply", "DATA_refused_after_recipients_were_accepted", "next_Mail_without_Reset_after_refused_DATA"},
 		QuickRuns:   120000, ThoroughRuns: 2000000,
 	})
 }
